@@ -244,10 +244,16 @@ func cmdCheck(args []string) int {
 			eng.Forced = forced
 			eng.SymMapOrder = strings.HasPrefix(h.Name(), "H_C19_")
 			eng.S.Abstract = !isIdeal(h.Name()) && !strings.HasSuffix(h.Name(), "_X")
+			if isIdeal(h.Name()) && !eng.Thorough {
+				eng.Lim.AssertTO = 24 * time.Second // the portfolio's last stage needs ~15 s on the hardest C12 step queries
+			}
 			if isIdeal(h.Name()) {
 				// ideal-Q queries are nonlinear real arithmetic: z3's nlsat tactic decides them in
 				// milliseconds where the incremental core answers unknown (measured on C12.step.claim: 0.3 s vs 47 s + unknowns)
 				eng.S.CheckCmd = "(check-sat-using (or-else (try-for qfnra-nlsat $T) smt))"
+				// obligation queries: sequential portfolio (equation solving first - measured on the C12 step
+				// obligations: 1 s where plain nlsat times out at 60 s)
+				eng.S.CheckCmdLong = "(check-sat-using (or-else (try-for (then simplify solve-eqs qfnra-nlsat) $A) (try-for (then simplify solve-eqs smt) $B) (try-for (then simplify propagate-values solve-eqs elim-uncnstr qfnra) $T) smt))"
 				if c := os.Getenv("SYMGO_IDEAL_CHECK"); c != "" {
 					eng.S.CheckCmd = c
 				}
